@@ -66,7 +66,39 @@ def poll_rules(ctx, which):
                 ok = True
         ctx.ob("%s|decrement-by-one" % tag, ok, "the counter decreases by exactly one per completed sub-future", [d])
         ctx.ob("%s|one-decrement-per-poll" % tag, not b.can_reach(d, d, avoiding=polls), "at most one decrement per polled sub-future", [d])
-    # ---- every Ready(Ok) result of a sub-future is stored (output slot / future state) on the same arm
+    # ---- every Ready(Ok) result of a sub-future is stored in the slot selected by the same index, on the same arm
+    for k, p in enumerate(sorted(polls, key=lambda x: b.rpo_index.get(x.b, 0))):
+        po = ("call", p.b, p.callee)
+        stores = []
+        for st in b.assigns():
+            pl = st.node["p"]
+            if "*" not in pl["p"] or st.node["r"]["r"] != "use":
+                continue
+            vo = b.origins(st.node["r"]["o"], st)
+            for o in vo:
+                if o[0] != "agg" or o[4] not in ("Some", "Ready"):
+                    continue
+                a = Site(b, o[1], o[2])
+                io = b.origins(a.node["r"]["ops"][0], a) if a.node["r"]["ops"] else frozenset()
+                if any(origin_proj_names(x)[0] == po and origin_proj_names(x)[1][:3] == [("d", "Ready"), ("f", "0"), ("d", "Ok")] for x in io):
+                    stores.append(st)
+        ok = False
+        for st in stores:
+            dst = b.place_origins({"l": st.node["p"]["l"], "p": []}, st)
+            slot_idx = set()
+            for d in dst:
+                for c in origin_calls(d):
+                    if c[2] == "std::ops::IndexMut::index_mut":
+                        cs = Site(b, c[1], TERM)
+                        slot_idx.add(b.origins(cs.args()[1], cs))
+            wk = [w for w in b.calls(r"TaskSet::waker_of$") if b.dominates(w, p) and not any(b.dominates(w, q) and b.dominates(q, p) and q.key() != p.key() for q in polls)]
+            widx = set(b.origins(w.args()[1], w) for w in wk)
+            conds = b.conditions(st)
+            in_ok_arm = any(c.kind == "variant" and c.data[1] == {"Ok"} and not c.data[2] for c in conds)
+            if slot_idx and slot_idx == widx and in_ok_arm and b.dominates(p, st):
+                ok = True
+        ctx.ob("%s|result-stored-in-own-slot|pass%d" % (tag, k), ok,
+               "the Ready(Ok) result of a sub-future is stored in the reply slot selected by the same task index (replies are matched to their replier)", stores or [p])
     # ---- return values
     rets = K.ret_assigns(b)
     ready_ok = [r for r in rets if _ret_variant(r) == ("Ready", "Ok")]
